@@ -296,7 +296,7 @@ def rule_frame_stamped(res, rid, m):
                   "a frame is pushed that is not the frame template: %s" % canon(pb["args"][0] if pb.get("args") else None))
 
 
-def rule_identity(res, rid, m):
+def rule_identity(res, rid, m, identity_only=False):
     """C09-R3/R4: wherever a packet's raw CMP header is written into the frame template
     (or a frame), device id and stream id are afterwards overridden from the encoder's
     members; changing an id invalidates the template and resets the counter."""
@@ -315,7 +315,24 @@ def rule_identity(res, rid, m):
         for raw in raws:
             n_raw += 1
             tag = f.name.split("::")[-1]
-            res.ok(rid, "%s:raw-header" % tag, raw.get("loc"), "frame template starts as the packet's raw CMP header (version, message type)")
+            # the raw header the packet hands out says the packet's version and message type, whatever their values: on every path
+            # through getRawCmpHeader the header object copied out received setVersion(getVersion()) and setMessageType(getMessageType())
+            g = m.fb.resolve_call(raw)
+            if g is None or not g.cfg_raw:
+                raise Broken("Packet::getRawCmpHeader has no body")
+            for setter, getter, what in ((CH + "::setVersion", PKT + "::getVersion", "version"), (CH + "::setMessageType", PKT + "::getMessageType", "message type")):
+                npaths = 0
+                okp = True
+                for p in paths.enumerate_paths(g):
+                    if p.end != "exit":
+                        continue
+                    npaths += 1
+                    okp = okp and any(c2.get("k") == "call" and callee_name(c2) == setter and c2.get("args") and getter in depends(g, c2["args"][0])[1]
+                                      for _, c2 in p.elems())
+                res.check(okp and npaths > 0, rid, "%s:raw-header:%s" % (tag, what.replace(" ", "-")), raw.get("loc"),
+                          "the packet's raw CMP header carries the packet's %s on every path (%d)" % (what, npaths),
+                          "Packet::getRawCmpHeader does not store the packet's %s into the header on every path: for some packets the frame "
+                          "header keeps the default %s instead of the batch's" % (what, what))
             for setter, member, what in ((CH + "::setDeviceId", m.deviceId, "device id"), (CH + "::setStreamId", m.streamId, "stream id")):
                 cs = list(f.calls(setter))
                 ok = False
@@ -337,11 +354,18 @@ def rule_identity(res, rid, m):
         for wf, kind, n in m.writes.get(member, []):
             must, _ = m.eff.summary(wf)
             # counter reset to 0 and template cleared on every path
+            if identity_only:
+                res.check(m.template in must, rid, "set-%s:%s:template" % (what.replace(" ", "-"), wf.name.split("::")[-1]), wf.loc,
+                          "changing the %s invalidates the cached frame template on every path" % what,
+                          "%s writes the %s but does not (on every path) clear the frame template: later frames carry the old %s" % (wf.name, what, what))
+                continue
             resets = {m.template, m.counter} <= must
             res.check(resets, rid, "set-%s:%s" % (what.replace(" ", "-"), wf.name.split("::")[-1]), wf.loc,
                       "changing the %s invalidates the cached template and resets the counter on every path" % what,
                       "%s writes the %s but does not (on every path) clear the frame template and reset the counter: must-write set %s" %
                       (wf.name, what, sorted(m.short(x) for x in must)))
+    if identity_only:
+        return
     r = m.fb.fn(ENC + "::restart")
     must, _ = m.eff.summary(r)
     res.check(m.counter in must, rid, "restart", r.loc, "restart() resets the counter", "restart() does not reset the counter on every path")
@@ -400,6 +424,36 @@ def rule_flag_table(res, rid, m):
                               "the per-packet segment index `%s` has only %d bits: it wraps to 0 within a packet of more than %d segments and that "
                               "segment is flagged 'first' again" % (v.get("name"), bits, 1 << bits))
 
+    # a bool that is true exactly in the first iteration: initialised true before the loop, set to false unconditionally in the loop body
+    # after the flag builder was called (`bool isFirst = true; while (..) { flag(.., isFirst, ..); ...; isFirst = false; }`)
+    firstflags = set()
+    body = m.loop_stmt.get("body", {})
+    top = body.get("body", []) if body.get("k") == "compound" else [body]
+    ldefs = facts.local_defs(pp)
+    for n0 in pp.nodes():
+        if n0.get("k") != "decl":
+            continue
+        for v in n0.get("vars", []):
+            if (v.get("t") or {}).get("k") != "bool" or const_value(v.get("init")) != 1:
+                continue
+            if any(a2.get("id") == m.loop_stmt.get("id") for a2 in pp.ancestors(n0)):
+                continue
+            ds = ldefs.get(v["decl"], [])
+            asg = [x for x in pp.nodes() if x.get("k") == "assign" and strip_all_casts(x["l"]).get("decl") == v["decl"]]
+            if len(ds) != 2 or len(asg) != 1 or const_value(asg[0]["r"]) != 0:
+                continue
+            # the assignment is a top-level statement of the loop body, after the statement that calls the flag builder
+            def top_index(x):
+                for i, st in enumerate(top):
+                    if st.get("id") == x.get("id") or any(y.get("id") == x.get("id") for y in walk(st)):
+                        return i
+                return None
+            ia, ic = top_index(asg[0]), top_index(call)
+            direct = any(st.get("id") == asg[0].get("id") or (st.get("k") in ("exprstmt", "cast") and strip_all_casts(st.get("e", st)).get("id") == asg[0].get("id"))
+                         for st in top) or (ia is not None and pp.parent(asg[0]) is not None and pp.parent(asg[0]).get("id") == body.get("id"))
+            if ia is not None and ic is not None and ia > ic and direct:
+                firstflags.add(v["decl"])
+
     def arg_of(node):
         n = strip_all_casts(node)
         if n.get("k") == "ref" and n.get("dk") == "param":
@@ -434,6 +488,8 @@ def rule_flag_table(res, rid, m):
                     unknown.append(a[1])
                 elif arg.get("decl") == fit:
                     seg = a[2]
+                elif arg.get("decl") in firstflags:
+                    first = a[2]
                 elif is_last_pred(facts.expand(pp, arg)):
                     last = a[2]
                 else:
@@ -608,8 +664,7 @@ def rule_fit_decided_on_fresh_frame(res, rid, m):
                         for a in p.atoms)
         rd = reads(v)
         cl = called_names(v)
-        oktest = m.bytesLeft in rd and PKT + "::getPayloadLength" in cl and any(
-            x.get("k") == "sizeof" and x.get("ofrec") == MH for x in walk(v))
+        oktest = m.bytesLeft in rd and PKT + "::getPayloadLength" in cl  # (the header size in it is the exact-boundary obligation's linear form)
         # exact boundary: segmented iff free < sizeof(MessageHeader) + payload length (a packet that fits exactly is not split)
         def syms(z):
             if z.get("k") == "call" and callee_name(z) == PKT + "::getPayloadLength":
@@ -628,6 +683,7 @@ def rule_fit_decided_on_fresh_frame(res, rid, m):
                     exact = True
         res.check(exact, rid, "fit:exact-boundary", r.get("loc"), "does-not-fit test is exactly `free < %d + payload length`" % m.fb.record(MH)["size"],
                   "the fit test `%s` is not exactly `free bytes < sizeof(MessageHeader) + payload length`: packets at the fit boundary are split or overflow" % canon(v)[:160])
+        oktest = oktest and exact
         res.check(okpos and oktest, rid, "fit:positive-path", r.get("loc"),
                   "a packet is marked segmented only after the fit test was re-evaluated against a freshly opened frame",
                   "the fit checker can answer 'segmented' from a test against a partially filled frame (opened before test: %s; test reads "
